@@ -69,6 +69,21 @@ func (p *orderPolicy) order(site string, n int) []int {
 	return perm
 }
 
+// c05Host is a host struct with map fields and a method taking a map.
+type c05Host struct {
+	Tags   map[string]string
+	Counts map[string]int
+}
+
+func (h *c05Host) Join(m map[string]string) string {
+	var ks []string
+	for k, v := range m {
+		ks = append(ks, k+"="+v)
+	}
+	sort.Strings(ks)
+	return strings.Join(ks, ",")
+}
+
 type c05Obs struct {
 	Result   string
 	Err      string
@@ -100,6 +115,10 @@ func c05Globals(h *Host) map[string]any {
 	return map[string]any{
 		"mark": h.Recorder("mark"), "emit": h.RecorderRet("emit", 1), "emits": h.Recorder("emits"),
 		"json": modJSON.Module(), "strings": modStrings.Module(), "fmt": modFmt.Module(),
+		// host-supplied Go maps and a struct with map fields (conversion paths)
+		"hm":  map[string]any{"z": 1, "a": []any{1, 2}, "m": map[string]any{"k": "v", "b": 2}, "q": "s"},
+		"hmi": map[string]int{"one": 1, "two": 2, "three": 3},
+		"hs":  &c05Host{Tags: map[string]string{"x": "1", "a": "2", "m": "3"}, Counts: map[string]int{"b": 2, "a": 1}},
 	}
 }
 
@@ -175,12 +194,40 @@ func genC05Program(g *sim.Stream, tier string) string {
 	}
 	// extra observable uses of containers
 	maps := cg.varsOf(tMap, false)
-	for i := 0; i < g.Intn(4); i++ {
+	for i := 0; i < g.Intn(6); i++ {
 		m := cg.mapExpr(1)
 		if len(maps) > 0 && g.Bool() {
 			m = maps[g.Intn(len(maps))].Name
 		}
-		switch g.Intn(8) {
+		switch g.Intn(22) {
+		case 8:
+			fmt.Fprintf(&b, "cp%d := %s.copy()\nemits(string(cp%d))\n", i, m, i)
+		case 9:
+			fmt.Fprintf(&b, "up%d := %s\nup%d.update(%s)\nemits(string(up%d))\n", i, cg.mapExpr(1), i, m, i)
+		case 10:
+			fmt.Fprintf(&b, "emits(string(%s == %s))\n", m, cg.mapExpr(1))
+		case 11:
+			fmt.Fprintf(&b, "emits(string(%s.intersection(%s)))\nemits(string(%s.union(%s)))\n", cg.setExpr(1), cg.setExpr(1), cg.setExpr(1), cg.setExpr(1))
+		case 12:
+			fmt.Fprintf(&b, "emits(string(%s == %s))\nemits(string(any(%s)))\nemits(string(all(%s)))\n", cg.setExpr(1), cg.setExpr(1), cg.setExpr(1), cg.setExpr(1))
+		case 13:
+			b.WriteString("emits(string(hm))\nemits(string(hm[\"m\"]))\nfor k, v := range hm { emits(k) }\n")
+		case 14:
+			b.WriteString("emits(string(hmi))\nemits(string(keys(hmi)))\n")
+		case 15:
+			b.WriteString("emits(string(hs.Tags))\nhs.Counts = {\"z\": 26, \"y\": 25}\nemits(string(hs.Counts))\n")
+		case 16:
+			b.WriteString("emits(hs.Join({\"p\": \"1\", \"o\": \"2\", \"n\": \"3\"}))\n")
+		case 17:
+			b.WriteString("emits(string(json.unmarshal(\"{\\\"b\\\": 1, \\\"a\\\": [1, {\\\"z\\\": 0, \\\"y\\\": 1}]}\")))\n")
+		case 18:
+			b.WriteString("emits(string(decode(\"{\\\"k2\\\": 2, \\\"k1\\\": 1}\", \"json\")))\n")
+		case 19:
+			fmt.Fprintf(&b, "emits(string(type(hs)))\nemits(string(keys(%s)))\n", m)
+		case 20:
+			fmt.Fprintf(&b, "emits(string(list(%s)))\nemits(string(set(%s)))\n", m, cg.listExpr(1))
+		case 21:
+			fmt.Fprintf(&b, "emits(encode(%s, \"json\"))\n", m)
 		case 0:
 			fmt.Fprintf(&b, "emits(string(json.marshal(%s)))\n", m)
 		case 1:
